@@ -115,6 +115,7 @@ def r_translators(ctx):
         # ---- dense
         ctx.unit("expression_to_matrices")
         it = IndexInterp(_env(params_of(dense)[0], e), on_call=_on_call)
+        it.home = (repo, mod, None)
         msg = None
         try:
             ret = it.run(dense.body)
@@ -143,6 +144,7 @@ def r_translators(ctx):
         # ---- sparse
         ctx.unit("expression_to_sparse_matrices")
         it = IndexInterp(_env(params_of(sparse)[0], e), on_call=_on_call)
+        it.home = (repo, mod, None)
         arrays = []
 
         def on_call2(node, it0):
